@@ -734,8 +734,7 @@ func runFillSeq(rep *vh.Report, env vh.Env, i int) {
 			shape = append(shape, "c")
 		case x < 65:
 			g := gs[r.Intn(len(gs))]
-			fail := r.Intn(100) < 30
-			d.scriptFill(g, fail)
+			d.scriptFill(g, failIf(r, 30))
 			o := run.update(g)
 			l := lastFill(g, o.Gid)
 			if l == nil || l.Enter < o.Call {
@@ -797,7 +796,7 @@ func runFillSeq(rep *vh.Report, env vh.Env, i int) {
 				admitted := false
 				var probe fcOp
 				for try := 0; try < 200000 && !admitted; try++ {
-					d.scriptFill(g, true)
+					d.scriptFill(g, kindGeneric)
 					probe = run.update(g)
 					if l := lastFill(g, probe.Gid); l != nil && l.Enter > probe.Call {
 						admitted = true
@@ -868,7 +867,7 @@ func runFillConc(rep *vh.Report, env vh.Env, i int) {
 		}
 		nf := r.Intn(4)
 		for j := 0; j < nf; j++ {
-			d.scriptFill(g, r.Intn(100) < 35)
+			d.scriptFill(g, failIf(r, 35))
 		}
 	}
 	run := newFcRun(d, d.fill, ttl)
